@@ -293,7 +293,27 @@ func VerifC01OneWay() {
 	obj := c01Setup(imp)
 	a, b := vapi.Int32("a"), vapi.Int64("b")
 	var sum int64
-	_, err := obj.AddOneWayWithContext(context.Background(), a, b, &sum)
+	var err error
+	wantCtx, wantSt := map[string]string{}, map[string]string{}
+	switch vapi.Choice("maps", 3) {
+	case 0:
+		_, err = obj.AddOneWayWithContext(context.Background(), a, b, &sum)
+	case 1:
+		reqCtx := c01Map("reqctx")
+		for k, v := range reqCtx {
+			wantCtx[k] = v
+		}
+		_, err = obj.AddOneWayWithContext(context.Background(), a, b, &sum, reqCtx)
+	case 2:
+		reqCtx, reqSt := c01Map("reqctx"), c01Map("reqst")
+		for k, v := range reqCtx {
+			wantCtx[k] = v
+		}
+		for k, v := range reqSt {
+			wantSt[k] = v
+		}
+		_, err = obj.AddOneWayWithContext(context.Background(), a, b, &sum, reqCtx, reqSt)
+	}
 	vapi.Check(err == nil, "a one-way call returns without error")
 	vapi.Quiesce()
 	if !vapi.Engine() {
@@ -301,6 +321,8 @@ func VerifC01OneWay() {
 	}
 	vapi.Check(atomic.LoadInt32(&imp.calls) == 1, "a one-way call delivers its arguments exactly once")
 	vapi.Check(vapi.And(imp.a == a, imp.b == b), "a one-way call delivers exactly its arguments")
+	vapi.Check(c01MapEq(wantCtx, imp.reqCtx), "a one-way call delivers exactly the request context")
+	vapi.Check(c01MapEq(wantSt, imp.reqSt), "a one-way call delivers exactly the request status")
 	vapi.Check(atomic.LoadInt32(&tars.VerifC01Replies) == 0, "a one-way call produces no reply")
 	vapi.Reach("c01-oneway")
 }
